@@ -285,6 +285,10 @@ func TestProp(t *testing.T) {
 				c.Rep.Note("from-scratch run rejected the sources: %s", pkit.FirstLines(wstderr, 2))
 				return
 			}
+			if !wantExists && len(m.calls) > 0 {
+				c.Fail(rt, map[string]string{"check": "no-output-from-scratch"}, "goderive exits 0 from scratch but writes no derived.gen.go although the package has derive calls", files, nil)
+				return
+			}
 			// optional corruption of the old derived file
 			corrupt := ""
 			dpath := filepath.Join(dir, "p", gorun.DerivedFile)
